@@ -251,6 +251,8 @@ def write_include_tree(schema: Schema, incdir: str):
             if i == 0:
                 cur += _using(names)
             files[hpath] = cur
+    files.setdefault("vf_extra_a.h", "#pragma once\n#define VF_EXTRA_A 1\n")
+    files.setdefault("vf_extra_b.h", "#pragma once\n#define VF_EXTRA_B 1\n")
     # r7 template includes Track.h unconditionally
     files.setdefault("DataFormats/TrackReco/interface/Track.h", "#pragma once\n")
     for p, txt in files.items():
